@@ -210,3 +210,14 @@ def install_fault(label, store, mod):
 CONTRACTS = make_balance_contracts()
 for _c in CONTRACTS:
     globals()[_c.__name__] = _c
+
+# (b) identifier allocation / import completeness: sequential postconditions on the bounded graph model (see C04.py)
+from contracts import C04 as _c04
+for _c in _c04.STORE_CONTRACTS:
+    if 'C20' in _c.props:
+        class _B(_c):
+            ensures = {k: v for k, v in _c.ensures.items() if k.startswith(('import.', 'alloc.', 'internal_ids'))}
+        _B.__name__ = _c.__name__
+        _B.cost = getattr(_c, 'cost', 1)
+        globals()[_B.__name__] = _B
+        CONTRACTS.append(_B)
